@@ -116,7 +116,8 @@ theorem hookF_shape (hk : HK) (base : FCfg → Res) (x : FCfg) :
 object and `inState`; outside it keeps `InvS` (given `K`) -/
 structure NS (a0 : Arm) (N : Hook → FCfg → FCfg) : Prop where
   m : ∀ h x, x.l.trans.isSome = true → InvM x.l.c → InvM (N h x).l.c
-  mst : ∀ h x, x.l.trans.isSome = true → (N h x).l.c.st = x.l.c.st ∧ (N h x).inState = x.inState ∧ (N h x).l.trans = x.l.trans
+  mst : ∀ h x, x.l.trans.isSome = true → InvM x.l.c →
+    (N h x).l.c.st = x.l.c.st ∧ (N h x).inState = x.inState ∧ (N h x).l.trans = x.l.trans
   s : ∀ h x, K a0 x → InvS x.l.c → x.inState = true → InvS (N h x).l.c ∧ (N h x).inState = true
 
 theorem releasePause_st (c : Cfg) : (releasePause c).st = c.st := (releasePause_fields c).1
@@ -171,7 +172,7 @@ theorem enteredHooksF_m (hS : NS a0 N) (x : FCfg) (s : SObj) (h : InvM x.l.c) (h
     have htr1 : (x'.updC fun c => enteredHooks c s).l.trans.isSome = true := by rw [updC_l, upd_trans, a1]; exact htr
     split
     · rename_i hk _
-      obtain ⟨m1, m2, m3⟩ := hS.mst hk _ htr1
+      obtain ⟨m1, m2, m3⟩ := hS.mst hk _ htr1 h1
       exact ⟨hS.m hk _ htr1 h1, m2.trans a2, m1.trans hst1, m3.trans (by rw [updC_l, upd_trans, a1])⟩
     · exact ⟨h1, a2, hst1, by rw [updC_l, upd_trans, a1]⟩
   unfold enteredHooksF hookOpt
@@ -197,7 +198,7 @@ theorem exitOnceF_m (hS : NS a0 N) (hq : FQF N) (x : FCfg) (h : MQ x) (htr : x.l
     intro y ⟨a1, _⟩
     have htry : y.l.trans.isSome = true := by rw [a1]; exact htr
     have hm : InvM (N .exiting y).l.c := hS.m _ _ htry (by rw [a1]; exact h.1)
-    obtain ⟨m1, _, m3⟩ := hS.mst .exiting y htry
+    obtain ⟨m1, _, m3⟩ := hS.mst .exiting y htry (by rw [a1]; exact h.1)
     refine ⟨⟨hm.tr (exitState_tr _) (Or.inl (exitState_st _)), fun _ => exitState_exited _ hm.wv⟩, ?_, ?_⟩
     · show (exitState (N .exiting y).l.c).st = _; rw [exitState_st, m1, a1]
     · show (N .exiting y).l.trans = _; rw [m3, a1]
@@ -275,7 +276,7 @@ theorem enteringF_m (hS : NS a0 N) (hq : FQF N) (x : FCfg) (s : SObj) (h : MQ x)
       (N .entering y).l.trans = x.l.trans := by
     intro y h1 h2 h3 h4 h5
     have htry : y.l.trans.isSome = true := by rw [h3]; exact htr
-    obtain ⟨m1, m2, m3⟩ := hS.mst .entering y htry
+    obtain ⟨m1, m2, m3⟩ := hS.mst .entering y htry h4
     exact ⟨keep _ (m1.trans h1) (m2.trans h2) (hS.m _ _ htry h4) (h5.trans (hq .entering y).wfs), m1.trans h1, m2.trans h2, m3.trans h3⟩
   have e1 : enteringF N x s = bind (hookOpt (enteringHK s) (enteringBaseF s) x) (fun x => ok (N .entering x)) := rfl
   rw [e1]
@@ -375,7 +376,7 @@ theorem forceExceptedF_m (hS : NS a0 N) (hq : FQF N) (x : FCfg) (e : Exc) (h : M
   have hx2 : Exited (x1.updC fun c => setFutExc c e).l.c := w2.mono hst2 r2.wfs w1.wv
   have htr2 : (x1.updC fun c => setFutExc c e).l.trans.isSome = true := htr1
   -- the other ENTERING callbacks
-  obtain ⟨m1, _, m3⟩ := hS.mst .entering _ htr2
+  obtain ⟨m1, _, m3⟩ := hS.mst .entering _ htr2 hm2
   have hm3 := hS.m .entering _ htr2 hm2
   have hx3 : Exited (N .entering (x1.updC fun c => setFutExc c e)).l.c := hx2.mono m1 (hq .entering _).wfs hm2.wv
   generalize N Hook.entering (x1.updC fun c => setFutExc c e) = x3 at m3 hm3 hx3
